@@ -259,11 +259,12 @@ func (g *TxGen) Gen(t *rapid.T) *TxDesc {
 	if strings.Contains(g.Profile, "debond") {
 		kinds = append(kinds, "escrow", "escrow", "escrow", "reclaim", "reclaim", "reclaim", "reclaim", "reclaim", "reclaim")
 	}
-	if g.W.Runtime != nil {
-		kinds = append(kinds, "rtEvidence", "rtSubmitMsg")
+	if g.W.Runtime != nil && !strings.Contains(g.Profile, "noroothash") {
+		// (checks that keep their own model of the runtime's commitment pool switch this traffic off)
+		kinds = append(kinds, "rtEvidence", "rtSubmitMsg", "rtCommit")
 	}
 	if strings.Contains(g.Profile, "vault") && g.W.Spec.WithVault {
-		kinds = append(kinds, "vaultCreate", "vaultAction", "vaultAction", "vaultAction", "vaultAction", "vaultAction", "withdraw", "withdraw", "withdraw", "withdraw", "fundVault", "fundVault")
+		kinds = append(kinds, "vaultCreate", "vaultAction", "vaultAction", "vaultAction", "vaultAction", "vaultAction", "vaultCancel", "withdraw", "withdraw", "withdraw", "withdraw", "fundVault", "fundVault")
 	}
 	if strings.Contains(g.Profile, "hostile") {
 		kinds = append(kinds, "garbage", "garbage", "system", "oversized", "truncated", "newruntime", "newruntime")
@@ -324,6 +325,30 @@ func (g *TxGen) Gen(t *rapid.T) *TxDesc {
 			tagB = 2 // no equivocation: rejected by the stateless check
 		}
 		method, body = roothash.MethodEvidence, &roothash.Evidence{ID: g.W.Runtime.ID, EquivocationProposal: &roothash.EquivocationProposalEvidence{ProposalA: mk(2), ProposalB: mk(tagB)}}
+	case "rtCommit":
+		// an executor commitment by some node (committee member or not) naming some node as the scheduler, for the
+		// round after the runtime's latest block (or another round), with an agreeing-looking, odd or failure result
+		rs, err := g.V.RuntimeState(g.W.Runtime.ID)
+		na := g.nodeActor(t, a)
+		if err != nil || rs == nil || rs.LastBlock == nil || na == nil || na.Node == nil {
+			method, body = staking.MethodTransfer, &staking.Transfer{To: g.pickAddr(t, "to"), Amount: g.amount(t, bal, "amt")}
+			break
+		}
+		a, acct = na, g.V.Account(na.Addr)
+		bal = &acct.General.Balance
+		sched := g.nodeActor(t, g.Actors[rapid.IntRange(0, len(g.Actors)-1).Draw(t, "commitSched")])
+		var round *uint64
+		if rapid.IntRange(0, 4).Draw(t, "commitOtherRound") == 0 {
+			rr := rs.LastBlock.Header.Round + uint64(rapid.IntRange(0, 3).Draw(t, "commitRound"))
+			round = &rr
+		}
+		res := ExecutorResult{Failure: rapid.IntRange(0, 4).Draw(t, "commitFailure") == 0,
+			StateRoot: hash.NewFromBytes([]byte{byte(rapid.IntRange(0, 1).Draw(t, "commitState"))}), IORoot: hash.NewFromBytes([]byte{9})}
+		ec, err := NewExecutorCommitment(g.W.Runtime.ID, na.Node, sched.Node.ID.Public(), rs.LastBlock, round, res)
+		if err != nil {
+			panic(err)
+		}
+		method, body = roothash.MethodExecutorCommit, &roothash.ExecutorCommit{ID: g.W.Runtime.ID, Commits: []commitment.ExecutorCommitment{*ec}}
 	case "rtSubmitMsg":
 		method, body = roothash.MethodSubmitMsg, &roothash.SubmitMsg{ID: g.W.Runtime.ID, Tag: uint64(rapid.IntRange(0, 2).Draw(t, "msgTag")),
 			Fee: q(uint64(rapid.IntRange(0, 3).Draw(t, "msgFee"))), Tokens: q(uint64(rapid.SampledFrom([]int{0, 1, 7, 50}).Draw(t, "msgTokens"))), Data: []byte{byte(rapid.IntRange(0, 255).Draw(t, "msgData"))}}
@@ -440,6 +465,16 @@ func (g *TxGen) Gen(t *rapid.T) *TxDesc {
 			}}
 		}
 		method, body = vault.MethodAuthorizeAction, &vault.AuthorizeAction{Vault: va, Nonce: nonce, Action: act}
+	case "vaultCancel":
+		va := g.pickAddr(t, "vaultC")
+		nonce := uint64(rapid.IntRange(0, 2).Draw(t, "vaultCNonce"))
+		if len(g.Vaults) > 0 && rapid.IntRange(0, 5).Draw(t, "vaultCReal") > 0 {
+			va = g.Vaults[rapid.IntRange(0, len(g.Vaults)-1).Draw(t, "vaultCIdx")]
+			if vl := g.vaultInfo[va]; rapid.Bool().Draw(t, "vaultCNonceReal") {
+				nonce = vl.Nonce
+			}
+		}
+		method, body = vault.MethodCancelAction, &vault.CancelAction{Vault: va, Nonce: nonce}
 	case "refresh":
 		// a node (re-)registers itself; when the signer is not a node, pick one and sign with it
 		na := g.nodeActor(t, a)
